@@ -1425,3 +1425,48 @@ fn c06_decoder_seek_twin() {
     std::mem::forget(r);
     std::mem::forget(d);
 }
+
+// @harness prop=C03 tier=quick expect=pass timeout=600
+// @units decode::read_subframes(SideRight)
+// @bound block 2, SIDE_RIGHT, 20 bps (header code 101: the side channel is 21 bits wide)
+c03_restore!(c03_restore_sideright_b20, ChannelAssignment::SideRight, BitsPerSample::Bps20, 20, 1);
+
+// @harness prop=C03 tier=quick expect=pass timeout=600
+// @units decode::read_subframes(LeftSide)
+// @bound block 2, LEFT_SIDE, 12 bps (header code 010)
+c03_restore!(c03_restore_leftside_b12, ChannelAssignment::LeftSide, BitsPerSample::Bps12, 12, 0);
+
+// @harness prop=C03,C04 tier=quick expect=pass timeout=600
+// @units decode::read_subframes(Independent) audio::Frame::resized_channels decode::read_subframe
+// @bound block 2, 3 independent channels (VERBATIM subframes), 24 bps, all 6 sample fields arbitrary
+// @oracle every channel comes back in order with its own samples (sign-extended 24-bit fields); 6 samples in the frame; byte-aligned + 16 CRC bits consumed after the last subframe
+#[kani::proof]
+#[kani::unwind(12)]
+fn c03_independent_3ch_b24() {
+    let s: [u64; 6] = kani::any();
+    let vals: [u64; 16] = [0, 1, 0, s[0], s[1], 0, 1, 0, s[2], s[3], 0, 1, 0, s[4], s[5], kani::any()];
+    let mut r = ModelBits::new(Script::new(&vals), 63);
+    let mut buf = Frame::default();
+    let h = hdr(2, ChannelAssignment::Independent(Independent::try_from(3usize).unwrap()), BitsPerSample::Bps24);
+    let res = read_subframes(&mut r, &h, &mut buf);
+    assert!(res.is_ok());
+    assert!(buf.pcm_frames() == 2);
+    let sx = |raw: u64| -> i32 {
+        let v = (raw & 0xFF_FFFF) as i32;
+        if v & 0x80_0000 != 0 { v - (1 << 24) } else { v }
+    };
+    {
+        let mut it = buf.channels();
+        let mut c = 0;
+        while c < 3 {
+            let ch = it.next().unwrap();
+            assert!(ch.len() == 2 && ch[0] == sx(s[2 * c]) && ch[1] == sx(s[2 * c + 1]));
+            c += 1;
+        }
+        assert!(it.next().is_none());
+    }
+    // 3 x (8 + 2 x 24) = 168 bits = 21 bytes exactly, then the 16-bit CRC
+    assert!(r.pos == 168 + 16);
+    std::mem::forget(res);
+    std::mem::forget(buf);
+}
